@@ -118,13 +118,34 @@ def build(spec: Dict[str, Any]) -> Any:
     for e, el in zip(spec['elems'], elems):
         for name, typ, is_arr, val in e['attrs']:
             vt = dmx.ValueType[typ]
+            way = (len(name) + len(e['attrs'])) % 4   # the public ways to arrive at the same attribute, rotated
             if is_arr:
                 items = [conv(typ, x) for x in val]
-                # the array constructor takes any iterable: a list, a tuple, or an iterator that can be consumed only once
-                arg = items if len(name) % 3 == 0 else tuple(items) if len(name) % 3 == 1 else iter(items)
-                el[name] = dmx.Attribute.array(name, vt, arg)
+                if way == 3 and typ != 'TIME':   # (append() deduces the type of what it is given, and cannot deduce Time)
+                    # an empty array filled afterwards through the array mutators
+                    attr = dmx.Attribute.array(name, vt)
+                    half = len(items) // 2
+                    for it in items[:half]:
+                        attr.append(it)
+                    attr.extend(iter(items[half:]))
+                    if items:
+                        attr.append(items[0])      # one too many, taken out again ...
+                        del attr[len(items)]
+                        attr[0] = items[0]         # ... and an item assigned over itself
+                    el[name] = attr
+                else:
+                    # the array constructor takes any iterable: a list, a tuple, or an iterator that can be consumed only once
+                    arg = items if way == 0 else tuple(items) if way == 1 else iter(items)
+                    el[name] = dmx.Attribute.array(name, vt, arg)
             elif typ == 'TIME':
                 el[name] = dmx.Attribute.time(name, conv(typ, val))
+            elif way == 1 and typ in ('INT', 'FLOAT', 'BOOL', 'STRING', 'BINARY'):
+                # the typed constructor, under a throw-away name: Element.__setitem__ renames the attribute it is given
+                el[name] = getattr(dmx.Attribute, {'INT': 'int', 'FLOAT': 'float', 'BOOL': 'bool', 'STRING': 'string', 'BINARY': 'binary'}[typ])(
+                    'placeholder name', conv(typ, val))
+            elif way == 2 and typ in ('VEC2', 'VEC3', 'VEC4', 'COLOR', 'ANGLE', 'QUATERNION'):
+                ctor = getattr(dmx.Attribute, typ.lower())
+                el[name] = ctor(name, *val) if len(name) % 2 else ctor(name, iter(val))
             else:
                 el[name] = conv(typ, val)  # type deduced by Element.__setitem__
     for e, el in zip(spec['elems'], elems):
